@@ -7,6 +7,7 @@ import (
 	"strings"
 	"time"
 
+	"google.golang.org/grpc/status"
 	"google.golang.org/protobuf/proto"
 
 	"github.com/openconfig/gribigo/server"
@@ -42,9 +43,10 @@ type linOp struct {
 }
 
 type linStep struct {
-	kind byte // 'E' announce, 'M' batch, 'X' leave
+	kind byte // 'P' session parameters (first message), 'E' announce, 'M' batch, 'X' leave
 	id   ID
 	ops  []linOp
+	fib  bool // 'P': RIB_AND_FIB_ACK instead of RIB_ACK
 }
 
 type linProg struct {
@@ -129,128 +131,173 @@ func (ls *linSession) modify(s *server.Server, ops []linOp) {
 	}
 }
 
-func linOutcome(s *server.Server, a, b *linSession) string {
+func linOutcome(s *server.Server, ss []*linSession) string {
 	m, err := ribx.Snapshot(s.VerifRIB())
 	ribc := "ERR"
 	if err == nil {
 		ribc = m.Canon()
 	}
 	master, id := s.VerifElection()
-	return fmt.Sprintf("a=%v b=%v | election=%s(%d,%d) | held=%s | rib=%s", a.obs, b.obs, master, id.GetHigh(), id.GetLow(), ribx.PendingCanon(s.VerifRIB()), ribc)
+	var sb strings.Builder
+	for _, x := range ss {
+		fmt.Fprintf(&sb, "%s=%v ", x.sid, x.obs)
+	}
+	return fmt.Sprintf("%s| election=%s(%d,%d) | held=%s | rib=%s", sb.String(), master, id.GetHigh(), id.GetLow(), ribx.PendingCanon(s.VerifRIB()), ribc)
 }
 
-func linServer() *server.Server {
+var linSIDs = []string{"a", "b", "c"}
+
+func linServer(n int, fib bool, progs []linProg) *server.Server {
 	s := newServer()
-	for _, sid := range []string{"a", "b"} {
-		if err := negotiate(s, sid); err != nil {
+	if len(progs) > 0 && len(progs[0].steps) > 0 && progs[0].steps[0].kind == 'P' {
+		// the programs negotiate themselves: the sessions only exist
+		for _, sid := range linSIDs[:n] {
+			if err := s.VerifNewClient(sid); err != nil {
+				panic(err)
+			}
+		}
+		return s
+	}
+	p := params
+	if fib {
+		p = proto.Clone(params).(*spb.SessionParameters)
+		p.AckType = spb.SessionParameters_RIB_AND_FIB_ACK
+	}
+	for _, sid := range linSIDs[:n] {
+		if err := s.VerifNewClient(sid); err != nil {
+			panic(err)
+		}
+		if _, err := s.VerifCheckParams(sid, p, false); err != nil {
+			panic(err)
+		}
+		if err := s.VerifUpdateParams(sid, p); err != nil {
 			panic(err)
 		}
 	}
 	return s
 }
 
-// linSequential returns every outcome of the two programs interleaved at step granularity on a sequential server.
-func linSequential(pa, pb linProg) map[string]bool {
+// negotiate sends the session parameters as the Modify handler processes them.
+func (ls *linSession) negotiate(s *server.Server, fib bool) {
+	p := proto.Clone(params).(*spb.SessionParameters)
+	if fib {
+		p.AckType = spb.SessionParameters_RIB_AND_FIB_ACK
+	}
+	if _, err := s.VerifCheckParams(ls.sid, p, false); err != nil {
+		ls.obs = append(ls.obs, "P->"+status.Code(err).String())
+		ls.end(s)
+		return
+	}
+	if err := s.VerifUpdateParams(ls.sid, p); err != nil {
+		ls.obs = append(ls.obs, "P->"+status.Code(err).String())
+		ls.end(s)
+		return
+	}
+	ls.obs = append(ls.obs, "P->OK")
+}
+
+func (ls *linSession) step(s *server.Server, st linStep, from, to int) {
+	switch st.kind {
+	case 'P':
+		ls.negotiate(s, st.fib)
+	case 'E':
+		ls.election(s, st.id)
+	case 'X':
+		ls.end(s)
+	case 'M':
+		ls.modify(s, st.ops[from:to])
+	}
+}
+
+// linSequential returns every outcome of the programs interleaved at step granularity on a sequential server.
+func linSequential(progs []linProg, fib bool) map[string]bool {
 	type atom struct {
-		sess byte
+		sess int
 		step int
 		op   int // index into the batch, -1 for E / X
 	}
-	flat := func(sess byte, p linProg) []atom {
-		var out []atom
+	flat := make([][]atom, len(progs))
+	for k, p := range progs {
 		for i, st := range p.steps {
 			if st.kind == 'M' {
 				for j := range st.ops {
-					out = append(out, atom{sess, i, j})
+					flat[k] = append(flat[k], atom{k, i, j})
 				}
 			} else {
-				out = append(out, atom{sess, i, -1})
+				flat[k] = append(flat[k], atom{k, i, -1})
 			}
 		}
-		return out
 	}
-	fa, fb := flat('a', pa), flat('b', pb)
 	out := map[string]bool{}
 	var order []atom
-	var rec func(i, j int)
+	pos := make([]int, len(progs))
 	run := func() {
-		s := linServer()
-		sa, sb := &linSession{sid: "a"}, &linSession{sid: "b"}
+		s := linServer(len(progs), fib, progs)
+		var ss []*linSession
+		for k := range progs {
+			ss = append(ss, &linSession{sid: linSIDs[k]})
+		}
 		for _, at := range order {
-			ls, p := sa, pa
-			if at.sess == 'b' {
-				ls, p = sb, pb
-			}
+			ls := ss[at.sess]
 			if ls.dead {
 				continue
 			}
-			st := p.steps[at.step]
-			switch st.kind {
-			case 'E':
-				ls.election(s, st.id)
-			case 'X':
-				ls.end(s)
-			case 'M':
-				ls.modify(s, st.ops[at.op:at.op+1])
+			st := progs[at.sess].steps[at.step]
+			if st.kind == 'M' {
+				ls.step(s, st, at.op, at.op+1)
+			} else {
+				ls.step(s, st, 0, 0)
 			}
 		}
-		out[linOutcome(s, sa, sb)] = true
+		out[linOutcome(s, ss)] = true
 	}
-	rec = func(i, j int) {
-		if i == len(fa) && j == len(fb) {
+	var rec func()
+	rec = func() {
+		done := true
+		for k := range progs {
+			if pos[k] < len(flat[k]) {
+				done = false
+				order = append(order, flat[k][pos[k]])
+				pos[k]++
+				rec()
+				pos[k]--
+				order = order[:len(order)-1]
+			}
+		}
+		if done {
 			run()
-			return
-		}
-		if i < len(fa) {
-			order = append(order, fa[i])
-			rec(i+1, j)
-			order = order[:len(order)-1]
-		}
-		if j < len(fb) {
-			order = append(order, fb[j])
-			rec(i, j+1)
-			order = order[:len(order)-1]
 		}
 	}
-	rec(0, 0)
+	rec()
 	return out
 }
 
-func linBody(pa, pb linProg) func() {
+func linBody(progs []linProg, fib bool) func() {
 	return func() {
-		s := linServer()
-		sa, sb := &linSession{sid: "a"}, &linSession{sid: "b"}
+		s := linServer(len(progs), fib, progs)
+		var ss []*linSession
 		var wg vsync.WaitGroup
-		wg.Add(2)
-		for _, x := range []struct {
-			ls *linSession
-			p  linProg
-		}{{sa, pa}, {sb, pb}} {
-			x := x
-			rt.Go("session-"+x.ls.sid, func() {
+		wg.Add(len(progs))
+		for k := range progs {
+			ls, p := &linSession{sid: linSIDs[k]}, progs[k]
+			ss = append(ss, ls)
+			rt.Go("session-"+ls.sid, func() {
 				defer wg.Done()
-				for _, st := range x.p.steps {
-					if x.ls.dead {
+				for _, st := range p.steps {
+					if ls.dead {
 						return
 					}
-					switch st.kind {
-					case 'E':
-						x.ls.election(s, st.id)
-					case 'X':
-						x.ls.end(s)
-					case 'M':
-						x.ls.modify(s, st.ops)
-					}
+					ls.step(s, st, 0, len(st.ops))
 				}
 			})
 		}
 		wg.Wait()
 		rt.Quiesce()
-		rt.Emit("lin-outcome", linOutcome(s, sa, sb))
+		rt.Emit("lin-outcome", linOutcome(s, ss))
 	}
 }
 
-func linPrograms() (as, bs []linProg) {
+func linPrograms() (as, bs, cs []linProg) {
 	nh1, nh2 := ribx.NHEntry(1, "1.1.1.1"), ribx.NHEntry(2, "2.2.2.2")
 	g1, g2 := ribx.NHGEntry(1, 0, [2]uint64{1, 1}), ribx.NHGEntry(2, 0, [2]uint64{2, 1})
 	p4 := ribx.V4Entry("10.0.0.0/8", 1, "", nil)
@@ -273,17 +320,57 @@ func linPrograms() (as, bs []linProg) {
 		{"b: announce 2; [ADD v6->g2, ADD g2{nh2}]; leave", []linStep{E(2), M(add("v6", q6), add("g2", g2)), X}},
 		{"b: announce 2; [DELETE nh1]; [ADD nh1 (other address), ADD g2{nh2}]", []linStep{E(2), M(del("nh1", nh1)), M(add("nh1'", ribx.NHEntry(1, "9.9.9.9")), add("g2", g2))}},
 	}
+	as = append(as,
+		linProg{"a: announce 1; [ADD nh1, ADD g1, ADD v4]; [DELETE v4, DELETE g1, DELETE nh1]", []linStep{E(1), M(add("nh1", nh1), add("g1", g1), add("v4", p4)), M(del("v4", p4), del("g1", g1), del("nh1", nh1))}},
+		linProg{"a: announce 1; [ADD v4->g1]; [DELETE v4]; [ADD g1{nh1}, ADD nh1]", []linStep{E(1), M(add("v4", p4)), M(del("v4", p4)), M(add("g1", g1), add("nh1", nh1))}},
+	)
+	rep := func(name string, e proto.Message) linOp { return linOp{name, D, spb.AFTOperation_REPLACE, e} }
+	bs = append(bs,
+		linProg{"b: announce 2; [ADD v6->g2, ADD g2{nh2}]; announce 4; [ADD nh2]", []linStep{E(2), M(add("v6", q6), add("g2", g2)), E(4), M(add("nh2", nh2))}},
+		linProg{"b: announce 2; [REPLACE nh1 (other address)]; [ADD nh2, ADD g2{nh2}]", []linStep{E(2), M(rep("nh1'", ribx.NHEntry(1, "9.9.9.9"))), M(add("nh2", nh2), add("g2", g2))}},
+	)
+	cs = []linProg{
+		{"c: announce 5", []linStep{E(5)}},
+		{"c: announce 2; leave", []linStep{E(2), X}},
+	}
 	return
 }
 
-func linParts(tier string) []string {
-	as, bs := linPrograms()
-	var out []string
+// linCase is one explored combination.
+type linCase struct {
+	progs []linProg
+	fib   bool
+}
+
+func linCases() map[string]linCase {
+	as, bs, cs := linPrograms()
+	out := map[string]linCase{}
 	for i := range as {
 		for j := range bs {
-			out = append(out, fmt.Sprintf("lin/%d/%d", i, j))
+			out[fmt.Sprintf("lin/%d/%d", i, j)] = linCase{progs: []linProg{as[i], bs[j]}}
 		}
 	}
+	// FIB acknowledgements negotiated: the programs with held operations
+	for _, ij := range [][2]int{{0, 0}, {2, 3}, {3, 1}, {0, 5}} {
+		out[fmt.Sprintf("lin/%d/%d/fib", ij[0], ij[1])] = linCase{progs: []linProg{as[ij[0]], bs[ij[1]]}, fib: true}
+	}
+	// a third session that only takes part in the election
+	for _, ijk := range [][3]int{{0, 0, 0}, {2, 3, 1}, {3, 0, 1}, {1, 5, 0}} {
+		out[fmt.Sprintf("lin/%d/%d/c%d", ijk[0], ijk[1], ijk[2])] = linCase{progs: []linProg{as[ijk[0]], bs[ijk[1]], cs[ijk[2]]}}
+	}
+	// (Sessions that NEGOTIATE at the same time are deliberately not part of this tier: the reference server refuses
+	// session parameters while any other live session has not negotiated yet - which the property leaves open, see
+	// the C09 oracle - so two sessions that open and negotiate simultaneously can both be refused, an outcome that no
+	// sequential order produces and that violates nothing. Tried, seen, removed: it would be a false alarm.)
+	return out
+}
+
+func linParts(tier string) []string {
+	var out []string
+	for k := range linCases() {
+		out = append(out, k)
+	}
+	sort.Strings(out)
 	return out
 }
 
@@ -295,21 +382,33 @@ func RunC06Concurrent(rep *report.Report, tier string) {
 
 // ChildC06Concurrent explores one pair of programs.
 func ChildC06Concurrent(rep *report.Report, tier, part string) {
-	var i, j int
-	fmt.Sscanf(part, "lin/%d/%d", &i, &j)
-	as, bs := linPrograms()
-	pa, pb := as[i], bs[j]
+	lc, ok := linCases()[part]
+	if !ok {
+		rep.EngineError("unknown part %s", part)
+		return
+	}
 	t0 := time.Now()
-	seq := linSequential(pa, pb)
+	seq := linSequential(lc.progs, lc.fib)
 	seqT := time.Since(t0)
-	bound := 3
+	var pnames []string
+	for _, p := range lc.progs {
+		pnames = append(pnames, p.name)
+	}
+	pdesc := strings.Join(pnames, " || ")
+	if lc.fib {
+		pdesc += " (FIB acknowledgements negotiated)"
+	}
+	bound := 2
 	if tier == "thorough" {
-		bound = 5
+		bound = 4
+		if len(lc.progs) > 2 {
+			bound = 3
+		}
 	}
 	unbounded := os.Getenv("VERIF_LIN_UNBOUNDED") != ""
 	dl := ribhist.Budget(tier, 90*time.Second, 20*time.Minute)
 	name := "concurrent-sessions/" + part[4:]
-	res := mc.DFS(mc.SchedConfig{Name: name, Body: linBody(pa, pb), Bound: bound, Unbounded: unbounded, SwitchCost: 1, Deadline: dl,
+	res := mc.DFS(mc.SchedConfig{Name: name, Body: linBody(lc.progs, lc.fib), Bound: bound, Unbounded: unbounded, SwitchCost: 1, Deadline: dl,
 		Outcome: func(x *rt.Exec) string {
 			for _, e := range x.Events {
 				if e.Label == "lin-outcome" {
@@ -335,7 +434,7 @@ func ChildC06Concurrent(rep *report.Report, tier, part string) {
 					if len(near) > 3 {
 						near = near[:3]
 					}
-					return []mc.Fail{{Sig: "C06/concurrent-sessions-outcome-not-sequentially-explainable", What: fmt.Sprintf("%s || %s: the concurrent execution ended in {%s}, which none of the %d step-wise interleavings of the two programs on a sequential server produces (e.g. %s)", pa.name, pb.name, o, len(seq), strings.Join(near, " ;; "))}}
+					return []mc.Fail{{Sig: "C06/concurrent-sessions-outcome-not-sequentially-explainable", What: fmt.Sprintf("%s: the concurrent execution ended in {%s}, which none of the %d outcomes of the step-wise interleavings of the programs on a sequential server (e.g. %s)", pdesc, o, len(seq), strings.Join(near, " ;; "))}}
 				}
 			}
 			return nil
@@ -359,7 +458,7 @@ func ChildC06Concurrent(rep *report.Report, tier, part string) {
 	rep.Add("evaluations", res.Execs)
 	rep.Add("distinct_nontrivial", len(res.Outcomes))
 	rep.And("exhaustive", res.Exhaustive)
-	rep.Set("scenario:"+name, map[string]any{"session_a": pa.name, "session_b": pb.name, "sequential_interleavings_outcomes": len(seq), "sequential_reference_seconds": seqT.Seconds(),
+	rep.Set("scenario:"+name, map[string]any{"sessions": pdesc, "sequential_interleavings_outcomes": len(seq), "sequential_reference_seconds": seqT.Seconds(),
 		"executions": res.Execs, "bound_target": bound, "bound_completed": res.BoundCompleted, "executions_per_bound": res.ExecsPerBound,
 		"distinct_outcomes": len(res.Outcomes), "sequential_outcomes_reached_concurrently": reached, "bounding": "deviations from the default scheduler"})
 	for _, f := range res.Fails {
